@@ -150,6 +150,7 @@ def struct_stages(tier, seg_depth_q=1, seg_depth_t=2, extra_kinds=()):
              depth=1 if q else 2, kinds=kinds),
         dict(name="reloaded", worlds=["noseg-2d-reloaded", "seg-2d-reloaded"], seeds=["div", "two", "desc"],
              depth=1 if q else 2, kinds=kinds),
+        dict(name="big-ids", worlds=["noseg-2d-bigids", "seg-2d-bigids"], seeds=["bigdiv"], depth=1 if q else 2, kinds=kinds),
         dict(name="forests", worlds=["noseg-2d-given"], seeds=forests_seeds(4 if q else 5, 3 if q else 4), depth=1, kinds=kinds),
         # constructor clause: ids computed by the constructor on every forest
         dict(name="forests-computed-ids", worlds=["noseg-2d"], seeds=forests_seeds(4 if q else 5, 3 if q else 4), depth=1,
@@ -219,6 +220,7 @@ def check_c01(tier):
         dict(name="noseg-zero-based-ids", worlds=["noseg-2d-given0"], seeds=["div", "two", "desc", "skip"], depth=2, kinds=kinds),
         dict(name="noseg-configs", worlds=["noseg-2d-axes", "noseg-3d", "noseg-2d-fd", "noseg-2d-renamed", "noseg-2d-renamed-given"],
              seeds=NOSEG_SEEDS, depth=1 if q else 2, kinds=kinds),
+        dict(name="big-ids", worlds=["noseg-2d-bigids", "seg-2d-bigids"], seeds=["bigdiv"], depth=1 if q else 2, kinds=kinds + ("paint",)),
         dict(name="forests", worlds=["noseg-2d"], seeds=forests_seeds(4 if q else 5, 3 if q else 4), depth=1, kinds=kinds),
         dict(name="seg-bfs", worlds=["seg-2d", "seg-2d-aniso"] if q else ["seg-2d", "seg-2d-aniso", "seg-2d-all", "seg-3d", "seg-3d-aniso", "seg-2d-fd"],
              seeds=HAND_SEEDS + ["twodiv"], depth=1 if q else 2, kinds=kinds + ("paint",)),
@@ -663,6 +665,8 @@ def check_c14(tier):
              formats=["geff"]),
         dict(name="geff seg", worlds=["seg-2d", "seg-3d-aniso"], seeds=["div", "skip"] if q else HAND_SEEDS, depth=1 if not q else 0,
              kinds=SEG_KINDS, formats=["geff"]),
+        dict(name="big ids", worlds=["seg-2d-bigids", "noseg-2d-bigids"], seeds=["bigdiv"], depth=0 if q else 1, kinds=SEG_KINDS,
+             formats=["csv", "internal", "geff"]),
     ]
     if q:
         stages.append(dict(name="geff seg edited", worlds=["seg-2d"], seeds=["desc"], depth=1, kinds=("del_node", "paint", "add_edge"),
@@ -682,6 +686,7 @@ def check_c16(tier):
     ]
     if q:
         stages.append(dict(name="seg edited", worlds=["seg-2d"], seeds=["desc"], depth=1, kinds=("del_node", "paint", "add_edge")))
+    stages.append(dict(name="big ids", worlds=["seg-2d-bigids", "noseg-2d-bigids"], seeds=["bigdiv"], depth=0 if q else 1, kinds=SEG_KINDS))
     return run_stateset("C16", tier, stages, "readonly_state", time_budget=budget(tier, 200, 3000))
 
 
